@@ -184,6 +184,9 @@ pub enum Op {
     SetPing { ms: Option<u64> },
     /// set_pingresp_recv_timeout while running (0 disables)
     SetPingresp { ms: u64 },
+    /// toggle an automatic-behaviour option while running: 0 auto_pub_response, 1 auto_ping_response,
+    /// 2 auto_map_topic_alias_send, 3 auto_replace_topic_alias_send
+    SetAuto { which: u8, on: bool },
     Advance { ms: u64 },
     /// the transport is lost; `partial` > 0: the peer's next frame is cut after that many bytes first
     Close { partial: u16 },
@@ -348,7 +351,7 @@ impl Solo {
         use wire::*;
         match p.kind {
             PUBLISH => {
-                if !self.cfg.auto_pub {
+                if !self.w.opts.auto_pub {
                     if let Some(id) = p.id {
                         if p.qos == 1 {
                             self.inbox.push((id, InNeed::Puback));
@@ -359,7 +362,7 @@ impl Solo {
                 }
             }
             PUBREL => {
-                if !self.cfg.auto_pub {
+                if !self.w.opts.auto_pub {
                     if let Some(id) = p.id {
                         self.inbox.push((id, InNeed::Pubcomp));
                     }
@@ -368,7 +371,7 @@ impl Solo {
             SUBSCRIBE => self.inbox.push((p.id.unwrap_or(0), InNeed::Suback)),
             UNSUBSCRIBE => self.inbox.push((p.id.unwrap_or(0), InNeed::Unsuback)),
             PINGREQ => {
-                if !self.cfg.auto_ping {
+                if !self.w.opts.auto_ping {
                     self.inbox.push((0, InNeed::Pingresp));
                 }
             }
@@ -844,6 +847,9 @@ impl Solo {
             }
             Op::SetPingresp { ms } => {
                 self.w.set_pingresp(*ms);
+            }
+            Op::SetAuto { which, on } => {
+                self.w.set_auto(*which, *on);
             }
             Op::Advance { ms } => {
                 // idle time never passes an armed deadline without the timer firing first
@@ -1390,6 +1396,8 @@ pub fn gen_op(s: &Solo, r: &mut Rng, prof: &GenProfile) -> Op {
             0 => {
                 if r.chance(1, 3) {
                     Op::SetPingresp { ms: *r.pick(&[0u64, 0, 2000, 5000]) }
+                } else if r.chance(1, 3) {
+                    Op::SetAuto { which: r.below(4) as u8, on: r.chance(1, 2) }
                 } else {
                     Op::SetPing { ms: *r.pick(&[None, Some(0), Some(3000), Some(7000)]) }
                 }
